@@ -575,6 +575,7 @@ def _dispatch(t):
 def run(ctx):
     from .. import xfeat
     xfeat.sweep(ctx, "C16")      # cross-feature compositions (pv/xfeat.py)
+    xfeat.decl_sweep(ctx, "C16")
     p = [REC.BN128, REC.BLS12_381, REC.CURVE25519][ctx.seed % 3]
     tasks = [("w", n, p) for n in (3, 4, 6)]
     tasks += [("W", n, p) for n in (16, 20, 40)]
@@ -617,7 +618,7 @@ def run(ctx):
 def replay(case):
     if isinstance(case, dict) and case.get("xfeat"):
         from .. import xfeat
-        return xfeat.replay(case, "C16")
+        return xfeat.decl_replay(case) if case.get("decl") else xfeat.replay(case, "C16")
     H.bind(case["p"])
     if case["kind"] == "reject":
         r = reject_task((None, case["p"]))
